@@ -3600,7 +3600,7 @@ class GraphicObject:
             and self.stroke.value is not None
         ):
             try:
-                self.stroke.opacity = float(stroke_opacity)
+                self.stroke.opacity = self.stroke.opacity * float(stroke_opacity)
             except ValueError:
                 pass
         fill = values.get(SVG_ATTR_FILL)
@@ -3613,7 +3613,7 @@ class GraphicObject:
             and self.fill.value is not None
         ):
             try:
-                self.fill.opacity = float(fill_opacity)
+                self.fill.opacity = self.fill.opacity * float(fill_opacity)
             except ValueError:
                 pass
         self.stroke_width = Length(values.get("stroke_width", 1.0)).value()
